@@ -22,12 +22,14 @@ def parseLabel (t : String) : Option Label :=
   | [th] =>
     match th.toList with
     | ['c'] => some (.cons false)
+    | ['r'] => some (.rcv none)
     | ['x'] => some (.stop false)
     | 'p' :: r => do some (.prod (← natOfChars r) none)
     | _ => none
   | [th, o] =>
     match th.toList with
-    | ['c'] => if o = "r" then some (.cons true) else none
+    | ['c'] => if o = "r" then some (.cons true) else if o = "d" then some (.rcv (some .dropRecv)) else none
+    | ['r'] => if o = "r" then some (.rcv (some .recv)) else if o = "d" then some (.rcv (some .dropRecv)) else none
     | ['x'] => if o = "s" then some (.stop true) else none
     | 'p' :: r => do some (.prod (← natOfChars r) (some (← parsePOp o.toList)))
     | _ => none
@@ -35,6 +37,17 @@ def parseLabel (t : String) : Option Label :=
 
 def presText : PRes → String
   | .ok => "ok" | .closed => "cl" | .wouldBlock => "wb" | .cloned => "cloned" | .dropped => "dropped"
+
+def isTryPc : PPc → Bool
+  | .chk .try_ _ _ => true
+  | .push .try_ _ _ _ => true
+  | _ => false
+
+/-- pipeline.rs `try_send` returns `Err(sample)` both when closed and when full -/
+def presTextV (s : St) (i : Nat) (r : PRes) : String :=
+  match r with
+  | .closed | .wouldBlock => if s.v.pipe && isTryPc (s.pp i) then "err" else presText r
+  | _ => presText r
 
 def cresText : CRes → String
   | .ok (p, v) => s!"v{p}.{v}"
@@ -54,7 +67,7 @@ def token (s s' : St) (l : Label) : String :=
     | _ =>
       if blocked s l then "B"
       else if s'.pres.length > s.pres.length then
-        match s'.pres.getLast? with | some (_, r) => s!"={presText r}" | none => "?"
+        match s'.pres.getLast? with | some (_, r) => s!"={presTextV s i r}" | none => "?"
       else toString (s'.pp i).point
   | .cons _ =>
     match s.cp with
@@ -69,6 +82,16 @@ def token (s s' : St) (l : Label) : String :=
     | .idle => if s'.sp = .idle then "-" else toString s'.sp.point
     | .stNotify => "=stopped"
     | _ => toString s'.sp.point
+  | .rcv _ =>
+    match s.rp with
+    | .dead => "-"
+    | .idle => if s'.rp = .idle then "-" else toString s'.rp.point
+    | .ntfW => "=dropped"
+    | _ =>
+      if blocked s l then "B"
+      else if s'.cres.length > s.cres.length then
+        match s'.cres.getLast? with | some r => s!"={cresText r}" | none => "?"
+      else if s'.rp = .await2 then "P" else toString s'.rp.point
 
 def endToken (s : St) : String :=
   s!"end:h={s.ring.head},t={s.ring.tail},cl={b01 s.closed},en={b01 s.ended},pl={b01 s.poplock.isSome}"
@@ -83,7 +106,14 @@ def runTokens (s : St) : List String → List String → List String
   | t :: rest, acc =>
     match parseLabel t with
     | none => ("bad-label" :: acc).reverse
-    | some l =>
+    | some l0 =>
+      -- in the pipeline variant the consumer thread of the harness is the `SampleQueueReceiver`
+      let l := if s.v.pipe then
+          (match l0 with
+           | .cons true => Label.rcv (some .recv)
+           | .cons false => Label.rcv none
+           | l => l)
+        else l0
       let s' := step s l
       let locks := (if s'.plock.isSome then "+" else "") ++ (if s'.poplock.isSome then "*" else "")
       runTokens s' rest ((token s s' l ++ locks) :: acc)
@@ -94,14 +124,16 @@ def handle (stream : String) (args : List String) : String :=
   let variant : Option Variant :=
     match stream with
     | "sched" => some Variant.cur
-    | "sched-00" => some ⟨false, false⟩
-    | "sched-10" => some ⟨true, false⟩
-    | "sched-01" => some ⟨false, true⟩
+    | "psched" => some Variant.pipeCur
+    | "sched-00" => some ⟨false, false, false⟩
+    | "sched-10" => some ⟨true, false, false⟩
+    | "sched-01" => some ⟨false, true, false⟩
     | _ => none
   match variant, args with
   | some v, ini :: labels =>
     match fields ini with
-    | ["init", cap, start, nprod] =>
+    | [ini0, cap, start, nprod] =>
+      if ini0 ≠ "init" ∧ ini0 ≠ "pinit" then "bad-init" else
       match cap.toNat?, start.toNat?, nprod.toNat? with
       | some cap, some start, some nprod =>
         let s0 := run (St.init v cap word start) (clonePrefix nprod)
